@@ -2,6 +2,8 @@
 From Coq Require Import List ZArith Bool.
 From NX Require Import Bytes Reasm Reasm_proofs Trans Worker Worker_proofs Handshake Handshake_proofs
   Pinned_comm Pinned_thread.
+From Coq Require Import String.
+From NX Require PyLite Src_all Src_handshake_base Src_handshake_devinfo Src_handshake_proofs.
 Import ListNotations.
 Open Scope nat_scope.
 
@@ -45,6 +47,58 @@ Proof. exact stop_terminates. Qed.
 Theorem C10_disconnect_clean : forall c, started c = true -> disconnect c = comm0.
 Proof. exact disconnect_clean. Qed.
 
+(** ** the description phase of the handshake, CommHandler._devinfo_get with _nxslib_cmninfo /
+    _nxslib_chinfo / _drop_all / _drop_all_frames of comm.py as they are now (regenerated abstract
+    syntax, PyLite interpreter; [hcomm w pad dropped q qs] is a handler whose link records what is
+    written and whose two frame queues hand out the scripts [q], [qs]: any frames, any
+    time-outs, ANY LENGTH).  It always returns - None, a Device, or a decode error - with a
+    CONSTANT amount of fuel, consumes a bounded prefix of the scripts whatever they hold
+    (the frame drain stops after 256 frames: before the repair F19 it did not, and this theorem
+    was false), writes a bounded number of requests, and refines the abstract model above. *)
+Section OnSource.
+Import PyLite Src_all Src_handshake_base Src_handshake_devinfo Src_handshake_proofs.
+Open Scope string_scope.
+Open Scope nat_scope.
+
+Theorem C10_devinfo_returns_src : forall n w p d q qs,
+  264 <= n ->
+  let r := call_method program n (hcomm w p d q qs) "_devinfo_get" [] in
+  (exists st', r = PyLite.Ok (PNone, hcomm_of st')) \/
+  (exists cm fl rxp acc st', r = PyLite.Ok (dev_of cm fl rxp acc, hcomm_of st')) \/
+  r = Exc "struct.error" \/ r = Exc "UnicodeDecodeError".
+Proof. exact devinfo_get_returns_const. Qed.
+
+Theorem C10_drain_bounded_src : forall n w p d q qs,
+  262 <= n ->
+  call_method program n (hcomm w p d q qs) "_drop_all_frames" [] =
+  PyLite.Ok (PNone, hcomm w p d (drain q 4) (drain qs 4)).
+Proof. exact drop_all_frames_spec_const. Qed.
+
+Theorem C10_drain_consumes_src : forall q c,
+  List.length q - List.length (drain q c) <= c + drain_limit.
+Proof. exact drain_consumed_bound. Qed.
+
+Theorem C10_devinfo_consumes_src : forall w p d q qs res w' p' d' q' qs',
+  devinfo_m w p d q qs = (res, (w', p', d', q', qs')) ->
+  (exists pre, q = (pre ++ q')%list /\
+     List.length pre <= 1 + (4 + drain_limit) + script_chmax q * chinfo_attempts) /\
+  (exists pres, qs = (pres ++ qs')%list /\ List.length pres <= 4 + drain_limit).
+Proof. exact devinfo_consumed. Qed.
+
+Theorem C10_devinfo_requests_src : forall w p d q qs res w' p' d' q' qs',
+  devinfo_m w p d q qs = (res, (w', p', d', q', qs')) ->
+  exists ks, w' = (w ++ ks)%list /\
+    List.length ks <= 1 + (if pad_reconf p q then 1 else 0) + script_chmax q * chinfo_attempts.
+Proof. exact devinfo_requests. Qed.
+
+Theorem C10_devinfo_is_the_model_src : forall n w p d q qs,
+  264 <= n ->
+  call_method program n (hcomm w p d q qs) "_devinfo_get" [] = emb_dev_top (devinfo_m w p d q qs).
+Proof. exact devinfo_get_spec_const. Qed.
+End OnSource.
+
 Print Assumptions C10_connect_bounded.
 Print Assumptions C10_recv_returns.
 Print Assumptions C10_stop_terminates.
+Print Assumptions C10_devinfo_returns_src.
+Print Assumptions C10_devinfo_consumes_src.
